@@ -42,6 +42,7 @@ AllSparse == << {<<>>}, {<<"d">>}, {<<"f">>}, {<<"d", "x">>, <<"f">>}, {<<"gi">>
 
 AllEditPaths == Paths
 SparseEditPaths == {<<"f">>, <<"d">>, <<"d", "x">>}
+IgnoreEditPaths == {<<"gi">>, <<"d">>}
 IgnoreIdsOf(p) == IF Len(p) = 1 THEN RootIgnore ELSE DirIgnore
 
 (* an action instance *)
@@ -85,7 +86,8 @@ PostOf(s) == [disk |-> TreeSeq(s.disk), tree |-> TreeSeq(s.tree), sparse |-> s.s
 SnapshotVerdict(s, s2) ==
   LET v == SnapshotContract(s, s2) IN
   IF v = "ok" \/ (v = "Panic:Snapshot" /\ ~Strict
-                    /\ (StaleStateShape(s) \/ DirConflictShape(s) \/ TrackedDirShape(s))) THEN "" ELSE v
+                    /\ (StaleStateShape(s) \/ DirConflictShape(s) \/ TrackedDirShape(s)))
+              \/ (v = "SnapshotOK" /\ ~Strict /\ StaleIgnoredShape(s)) THEN "" ELSE v
 CheckOutVerdict(s, new, s2) ==
   LET v == CheckOutContract(s, new, s2) IN
   IF v = "Panic:CheckOut" /\ ~Strict /\ UnsortedShape(s, new) THEN ""
